@@ -127,11 +127,225 @@ Definition o8 : pobj := {| o_pid := 8; o_ident := 20; o_ctime := None |}.
 
 Theorem parents_vanish_refuted :
   exists t goneb o, wf_table t = true /\ alive_b t o = true /\
-    parents as_is (S (length t)) t [] goneb None o = Exc NoSuchProcess /\
-    parents with_nsp_fix (S (length t)) t [] goneb None o = Val (Some [5]).
+    parents before_nsp_fix (S (length t)) t [] goneb None o = Exc NoSuchProcess /\
+    parents as_is (S (length t)) t [] goneb None o = Val (Some [5]).
 Proof. exists chain3, [5], o8. repeat split; vm_compute; reflexivity. Qed.
 
 (* when it vanishes earlier (before its create_time() was read) it is simply not a parent *)
 Example chain3_gone_early : parents as_is 4 chain3 [5] [] None o8 = Val (Some [])
                             /\ parent as_is chain3 [5] None o8 = Val None.
 Proof. split; vm_compute; reflexivity. Qed.
+
+(* the code as it is (repair 671469c): a live caller always gets a list, whatever vanishes *)
+Theorem parents_total_v : forall t gone goneb cache o,
+  wf_table t = true -> alive_b t o = true -> cache_fresh_b t cache = true ->
+  exists l, parents as_is (S (length t)) t gone goneb cache o = Val (Some l).
+Proof. intros t gone goneb cache o. apply parents_vanish_total; reflexivity. Qed.
+
+(* ------------------------------------------------------------ chain_v: the demanded chain under vanishing *)
+Lemma spec_parent_v_nil : forall t p s, spec_parent_v t [] p s = spec_parent t p s.
+Proof.
+  intros t p s. unfold spec_parent_v, spec_parent. destruct (is_root_b t p); [reflexivity|].
+  destruct (lookup t p) as [e|]; reflexivity.
+Qed.
+
+Lemma spec_parent_of_v_nil : forall t p, spec_parent_of_v t [] p = spec_parent_of t p.
+Proof.
+  intros t p. unfold spec_parent_of_v, spec_parent_of. destruct (lookup t p); [|reflexivity].
+  rewrite spec_parent_v_nil. reflexivity.
+Qed.
+
+Theorem chain_v_static : forall t p l, chain_v t [] [] p l <-> chain t p l.
+Proof.
+  intros t p l. split.
+  - intros C. induction C as [p Hn | p q Hs Hg | p q l Hs Hg C IH].
+    + apply chain_end. rewrite <- spec_parent_of_v_nil. exact Hn.
+    + discriminate Hg.
+    + apply chain_cons; [rewrite <- spec_parent_of_v_nil; exact Hs | exact IH].
+  - intros C. induction C as [p Hn | p q l Hs C IH].
+    + apply cv_end. rewrite spec_parent_of_v_nil. exact Hn.
+    + apply cv_cons; [rewrite spec_parent_of_v_nil; exact Hs | reflexivity | exact IH].
+Qed.
+
+(* the harness's oracle for parents() computes that chain *)
+Theorem spec_parents_v_sound : forall t gone goneb n p l,
+  spec_parents_v t gone goneb n p = Some l -> chain_v t gone goneb p l /\ (length l <= S n)%nat.
+Proof.
+  intros t gone goneb. induction n as [|m IH]; intros p l H; cbn [spec_parents_v] in H;
+    destruct (spec_parent_of_v t gone p) as [q|] eqn:Sp.
+  - destruct (memz q goneb) eqn:G; [|discriminate]. injection H as <-. split; [apply (cv_gone _ _ _ p q Sp G) | cbn [length]; lia].
+  - injection H as <-. split; [apply cv_end; exact Sp | cbn [length]; lia].
+  - destruct (memz q goneb) eqn:G.
+    + injection H as <-. split; [apply (cv_gone _ _ _ p q Sp G) | cbn [length]; lia].
+    + destruct (spec_parents_v t gone goneb m q) as [l'|] eqn:R; [|discriminate].
+      cbn [option_map] in H. injection H as <-. destruct (IH q l' R) as [C Len].
+      split; [apply (cv_cons _ _ _ p q l' Sp G C) | cbn [length]; lia].
+  - injection H as <-. split; [apply cv_end; exact Sp | cbn [length]; lia].
+Qed.
+
+(* chain_v is a function of its start, and never repeats a process *)
+Lemma chain_v_fun : forall t g gb p l, chain_v t g gb p l -> forall l', chain_v t g gb p l' -> l = l'.
+Proof.
+  intros t g gb p l C. induction C as [p Hn | p q Hs Hg | p q l Hs Hg C IH]; intros l' C';
+    inversion C' as [p0 Hn0 | p0 q0 Hs0 Hg0 | p0 q0 l0 Hs0 Hg0 C0]; subst; try congruence.
+  assert (q0 = q) by congruence. subst q0. f_equal. apply IH. exact C0.
+Qed.
+
+Lemma chain_v_suffix : forall t g gb l1 p q l2, chain_v t g gb p (l1 ++ q :: l2) ->
+  (l2 = [] /\ memz q gb = true) \/ chain_v t g gb q l2.
+Proof.
+  intros t g gb. induction l1 as [|a l1 IH]; intros p q l2 C; cbn [app] in C.
+  - inversion C as [| p0 q0 Hs Hg | p0 q0 l0 Hs Hg C0]; subst; [left; auto | right; exact C0].
+  - inversion C as [| p0 q0 Hs Hg | p0 q0 l0 Hs Hg C0]; subst.
+    + destruct l1; discriminate.
+    + apply (IH a q l2 C0).
+Qed.
+
+Lemma chain_v_not_in : forall t g gb p l, memz p gb = false -> chain_v t g gb p l -> ~ In p l.
+Proof.
+  intros t g gb p l Np C Hin. apply in_split in Hin. destruct Hin as [l1 [l2 E]]. subst l.
+  destruct (chain_v_suffix t g gb l1 p p l2 C) as [[_ G]|C2]; [congruence|].
+  pose proof (chain_v_fun t g gb p _ C _ C2) as E.
+  apply (f_equal (@length Z)) in E. rewrite app_length in E. cbn [length] in E. lia.
+Qed.
+
+Lemma chain_v_NoDup : forall t g gb p l, memz p gb = false -> chain_v t g gb p l -> NoDup (p :: l).
+Proof.
+  intros t g gb p l Np C. induction C as [p Hn | p q Hs Hg | p q l Hs Hg C IH].
+  - constructor; [intros [] | constructor].
+  - constructor; [|constructor; [intros [] | constructor]]. intros [E|[]]. subst q. congruence.
+  - constructor; [|apply IH; exact Hg]. apply (chain_v_not_in t g gb p (q :: l) Np).
+    apply (cv_cons _ _ _ p q l Hs Hg C).
+Qed.
+
+Lemma spec_parent_v_listed : forall t g p s q sq, spec_parent_v t g p s = Some (q, sq) ->
+  exists e, lookup t q = Some e /\ kp_start e = sq.
+Proof.
+  intros t g p s q sq H. unfold spec_parent_v in H. destruct (is_root_b t p); [discriminate|].
+  destruct (lookup t p) as [e|]; [|discriminate]. destruct (memz (kp_ppid e) g); [discriminate|].
+  apply (spec_parent_listed _ _ _ _ _ H).
+Qed.
+
+Lemma spec_parent_of_v_eq : forall t g q sq e, lookup t q = Some e -> kp_start e = sq ->
+  spec_parent_of_v t g q = option_map fst (spec_parent_v t g q sq).
+Proof. intros t g q sq e L S. unfold spec_parent_of_v. rewrite L, S. reflexivity. Qed.
+
+Lemma lookup_removed : forall q t, lookup (remove_pid q t) q = None.
+Proof.
+  intros q t. unfold lookup, remove_pid. induction t as [|e r IH]; [reflexivity|].
+  cbn [filter]. destruct (kp_pid e =? q) eqn:E; cbn [negb]; [exact IH|].
+  cbn [find]. rewrite E. exact IH.
+Qed.
+
+Section ParentsV.
+  Variables (fx : fixes) (t : table) (g gb : list Z) (low : Z).
+  Hypothesis F1 : fx_parents_seen fx = true.
+  Hypothesis F2 : fx_parents_nsp fx = true.
+  Hypothesis W : wf_table t = true.
+  Hypothesis F : cache_fresh_b t (Some low) = true.
+
+  (* an ancestor that vanished after it was linked: appended, and the chain ends *)
+  Lemma loop_goneb : forall f seen q sq acc, memz q gb = true -> memz q seen = false ->
+    parents_loop fx t g gb (Some low) (S f) seen (Some (q, sq)) acc = Val (Some (acc ++ [q])).
+  Proof.
+    intros f seen q sq acc G M.
+    rewrite (loop_unfold fx t g gb (Some low) f seen q sq acc); [|rewrite M; apply andb_false_r].
+    rewrite G. unfold parent.
+    assert (R : raise_if_pid_reused (remove_pid q t) (obj_of (q, sq)) = Val tt).
+    { unfold raise_if_pid_reused, obj_of. cbn [o_pid fst]. rewrite lookup_removed. reflexivity. }
+    assert (P0 : (if fx_parent_reuse fx then raise_if_pid_reused (remove_pid q t) (obj_of (q, sq)) else Val tt) = Val tt)
+      by (destruct (fx_parent_reuse fx); [exact R | reflexivity]).
+    rewrite P0. cbn [obind lowest_pid]. destruct (o_pid (obj_of (q, sq)) =? low).
+    - apply loop_none.
+    - unfold ppid_call. rewrite R. cbn [obind obj_of o_pid fst]. rewrite lookup_removed. cbn [obind].
+      rewrite F2. reflexivity.
+  Qed.
+
+  Lemma loop_step_v : forall f seen q sq e acc, lookup t q = Some e -> kp_start e = sq ->
+    memz q gb = false -> memz q seen = false ->
+    parents_loop fx t g gb (Some low) (S f) seen (Some (q, sq)) acc =
+    parents_loop fx t g gb (Some low) f (q :: seen) (spec_parent_v t g q sq) (acc ++ [q]).
+  Proof.
+    intros f seen q sq e acc L S G M.
+    rewrite (loop_unfold fx t g gb (Some low) f seen q sq acc); [|rewrite M; apply andb_false_r].
+    rewrite G.
+    pose proof (parent_spec_v fx t g (Some low) (obj_of (q, sq)) W (obj_alive t q sq e L S) F) as P.
+    rewrite P. cbn [obj_of o_pid o_ident fst snd]. reflexivity.
+  Qed.
+
+  Lemma loop_complete_v : forall l q sq e acc seen fuel, chain_v t g gb q l ->
+    lookup t q = Some e -> kp_start e = sq -> memz q gb = false -> (length l < fuel)%nat ->
+    (forall x, In x seen -> ~ In x (q :: l)) -> NoDup (q :: l) ->
+    parents_loop fx t g gb (Some low) fuel seen (Some (q, sq)) acc = Val (Some (acc ++ q :: l)).
+  Proof.
+    induction l as [|q' l IH]; intros q sq e acc seen fuel Ch L St G B D ND;
+      (assert (M : memz q seen = false) by (apply memz_false; intros Hq; apply (D q Hq); left; reflexivity));
+      (destruct fuel as [|f]; [cbn [length] in B; lia|]);
+      rewrite (loop_step_v f seen q sq e acc L St G M).
+    - inversion Ch as [p Hn | |]; subst. rewrite (spec_parent_of_v_eq t g q _ e L eq_refl) in Hn.
+      destruct (spec_parent_v t g q (kp_start e)); [discriminate|]. apply loop_none.
+    - apply NoDup_cons_iff in ND. destruct ND as [Hq NDl].
+      assert (D' : forall x, In x (q :: seen) -> ~ In x (q' :: l)).
+      { intros x [Hx|Hx] Hin; [subst x; apply Hq; exact Hin | apply (D x Hx); right; exact Hin]. }
+      inversion Ch as [| p q0 Hs Hg | p q0 l0 Hs Hg Ch']; subst.
+      + rewrite (spec_parent_of_v_eq t g q _ e L eq_refl) in Hs.
+        destruct (spec_parent_v t g q (kp_start e)) as [[q2 s2]|] eqn:SP; [|discriminate].
+        cbn [option_map fst] in Hs. injection Hs as ->.
+        destruct f as [|f']; [cbn [length] in B; lia|].
+        rewrite (loop_goneb f' (q :: seen) q' s2 (acc ++ [q]) Hg).
+        * rewrite <- app_assoc. reflexivity.
+        * apply memz_false. intros Hin. apply (D' q' Hin). left. reflexivity.
+      + rewrite (spec_parent_of_v_eq t g q _ e L eq_refl) in Hs.
+        destruct (spec_parent_v t g q (kp_start e)) as [[q2 s2]|] eqn:SP; [|discriminate].
+        cbn [option_map fst] in Hs. injection Hs as ->.
+        destruct (spec_parent_v_listed _ _ _ _ _ _ SP) as [e' [L' S']].
+        rewrite (IH q' s2 e' (acc ++ [q]) (q :: seen) f Ch' L' S' Hg).
+        * rewrite <- app_assoc. reflexivity.
+        * cbn [length] in B. lia.
+        * exact D'.
+        * exact NDl.
+  Qed.
+End ParentsV.
+
+(* parents() returns the chain demanded under vanishing, whenever that chain ends *)
+Theorem parents_chain_v_complete : forall t gone goneb cache o l fuel,
+  wf_table t = true -> alive_b t o = true -> cache_fresh_b t cache = true ->
+  memz (o_pid o) goneb = false ->
+  chain_v t gone goneb (o_pid o) l -> (length l <= fuel)%nat ->
+  parents as_is fuel t gone goneb cache o = Val (Some l).
+Proof.
+  intros t gone goneb cache o l fuel W A F Ng Ch B. destruct (alive_facts t o A) as [_ [_ [e [L St]]]].
+  unfold parents. rewrite (parent_spec_v as_is t gone cache o W A F). cbn [obind].
+  pose proof (cache_after_fresh t cache o A F) as F'.
+  destruct (cache_after_some t cache o A) as [low Hl]. rewrite Hl in *.
+  pose proof (chain_v_NoDup t gone goneb _ _ Ng Ch) as ND.
+  apply NoDup_cons_iff in ND. destruct ND as [Hp ND'].
+  inversion Ch as [p Hn | p q Hs Hg | p q l' Hs Hg Ch']; subst.
+  - rewrite (spec_parent_of_v_eq t gone _ _ e L St) in Hn.
+    destruct (spec_parent_v t gone (o_pid o) (o_ident o)); [discriminate|]. apply loop_none.
+  - rewrite (spec_parent_of_v_eq t gone _ _ e L St) in Hs.
+    destruct (spec_parent_v t gone (o_pid o) (o_ident o)) as [[q2 s2]|] eqn:SP; [|discriminate].
+    cbn [option_map fst] in Hs. injection Hs as ->.
+    destruct fuel as [|f]; [cbn [length] in B; lia|].
+    rewrite (loop_goneb as_is t gone goneb low eq_refl f [o_pid o] q s2 [] Hg); [reflexivity|].
+    apply memz_false. intros [E|[]]. apply Hp. left. symmetry. exact E.
+  - rewrite (spec_parent_of_v_eq t gone _ _ e L St) in Hs.
+    destruct (spec_parent_v t gone (o_pid o) (o_ident o)) as [[q2 s2]|] eqn:SP; [|discriminate].
+    cbn [option_map fst] in Hs. injection Hs as ->.
+    destruct (spec_parent_v_listed _ _ _ _ _ _ SP) as [e' [L' S']].
+    rewrite (loop_complete_v as_is t gone goneb low eq_refl W F' l' q s2 e' [] [o_pid o] fuel Ch' L' S' Hg);
+      [reflexivity| | |exact ND'].
+    + cbn [length] in B. lia.
+    + intros x [Hx|[]] Hin. subst x. apply Hp. exact Hin.
+Qed.
+
+(* hence: whenever the harness's oracle names a chain, the model of the code returns it *)
+Theorem parents_oracle : forall t gone goneb cache o l,
+  wf_table t = true -> alive_b t o = true -> cache_fresh_b t cache = true ->
+  memz (o_pid o) goneb = false ->
+  spec_parents_v t gone goneb (length t) (o_pid o) = Some l ->
+  parents as_is (S (length t)) t gone goneb cache o = Val (Some l) /\ chain_v t gone goneb (o_pid o) l.
+Proof.
+  intros t gone goneb cache o l W A F Ng H. destruct (spec_parents_v_sound _ _ _ _ _ _ H) as [C Len].
+  split; [|exact C]. apply parents_chain_v_complete; assumption.
+Qed.
